@@ -26,6 +26,8 @@ GenNext ==
     \/ ClientAckPing /\ Log("AckPing", 0)
     \/ \E k \in K : ClientOpen(k) /\ Log("Open", k)
     \/ \E k \in K : ClientRelease(k) /\ Log("Release", k)
+    \/ \E k \in K : ClientReadMost(k) /\ Log("ReadMost", k)
+    \/ IdleTimeout /\ Log("IdleTimeout", 0)
 
 GenSpec == GenInit /\ [][GenNext]_gvars
 
